@@ -70,7 +70,7 @@ PROPS["C13"] = dict(
               "SqlVerif.Props.C13Query.order_by_trailing_comma",
               "SqlVerif.Props.C13Query.projection_is_lists_model",
               "SqlVerif.Props.C13Query.projection_flag_leaks"],
-    corr=["lists", "queries"],
+    corr=["lists", "queries", "dml", "ddl"],
     unique_output={"lists": False, "queries": False},
     oracle=["C13"],
     level_text="Proved in Lean for every token type, every classification into commas and list-ending tokens, every element parser that is local on the list's elements, and every fuel: with the option on, parse_comma_separated returns the same values and leaves the cursor at the same token for `e1, ..., en, <end>` and `e1, ..., en <end>`; without a trailing comma the option is inert unless an element after a comma begins with a list-ending token; parse_comma_separated0 and the option flip of parse_projection are covered. The model of the three helpers is tied to the code by an exhaustive differential (all token sequences up to length 4/5 over a 13-letter alphabet x option on/off, real pub API driven on token vectors; the end set RESERVED_FOR_COLUMN_ALIAS is tabulated from the running crate). Whole-grammar: the parser reports every list it parsed (cfg hook), a comma is inserted at each reported list end and before each bracket closer, and the option is toggled on every accepted corpus text. For the three list kinds of the modelled query fragment (projection, GROUP BY, ORDER BY; Model/Query.lean, stream queries) the locality hypothesis is discharged: an element text that parse_select_item / parse_group_by_expr / parse_order_by_expr of the model accepts completely is parsed to the same value in front of a comma, a closer, `;` or a word of RESERVED_FOR_COLUMN_ALIAS (these have precedence 0 for the Pratt loop, fail the RESERVED test of parse_optional_alias and every keyword probe), with two exceptions that are part of the statements and kernel-checked on the model: `* EXCEPT` in dialects with wildcard EXCEPT, and `WITH` after an ORDER BY element in ClickHouse / Generic (WITH FILL); trailing_comma_noop and option_inert are instantiated for the three lists, and the projection of the model is shown to be Lists.projection - with the widened option also inside the items: in BigQuery / Snowflake / DuckDB `SELECT a IN (1,) FROM t` is accepted with the option off (parser state leaks into nested lists).",
